@@ -95,7 +95,7 @@ func (server *Server) registerSugarExecutors() {
 					return 0
 				}
 			}
-			if max < val {
+			if max <= val {
 				val = max - 1
 			}
 			return val
@@ -120,8 +120,17 @@ func (server *Server) registerSugarExecutors() {
 		if err != nil {
 			return NewNilMessage(), nil
 		}
+		if start < 0 && end < 0 && end < start {
+			return NewBulkMessage(""), nil
+		}
+		if len(getVal) <= start {
+			return NewBulkMessage(""), nil
+		}
 		start = rageValidiator(start, len(getVal))
 		end = rageValidiator(end, len(getVal))
+		if len(getVal) == 0 || end < start {
+			return NewBulkMessage(""), nil
+		}
 		return NewBulkMessage(getVal[start:(end + 1)]), nil
 	})
 
